@@ -1341,7 +1341,7 @@ def _candidates_all(f, ref_assigns=(), ref_locals=(), changed=None, ref_params=N
     # a temporary the reference names and the current text has folded into its use
     bound = set(ordered_locals(f)) | set(params_of(f))
     for ri, (name, expr_text) in enumerate(ref_assigns):
-        if name not in bound and name not in used_names:
+        if name not in params_of(f):
             yield ('extract_ref_temp', ri, 0)
     # a single-assignment local whose value can be re-evaluated: each use may spell the value out
     own_ = own_nodes(f)
@@ -1593,6 +1593,16 @@ def _apply(f, cand, ref_assigns=()):
                 if target is probe:
                     probe = ast.Name(id=mark, ctx=ast.Load())
                 if not _load_is_first(probe, mark):
+                    continue
+                # the name may be bound elsewhere (another arm): binding it here must not be visible to any read that follows
+                order = own_nodes(f)
+                pos_ = [k for k, x in enumerate(order) if x is st]
+                if not pos_:
+                    continue
+                later_loads = [x for x in order[pos_[0]:] if isinstance(x, ast.Name) and x.id == name and isinstance(x.ctx, ast.Load)]
+                in_loop = any(isinstance(l_, (ast.For, ast.While, ast.AsyncFor)) and any(x is st for x in ast.walk(l_)) and
+                              any(isinstance(x, ast.Name) and x.id == name and isinstance(x.ctx, ast.Load) for x in ast.walk(l_)) for l_ in order)
+                if later_loads or in_loop:
                     continue
                 new_name = ast.Name(id=name, ctx=ast.Load())
                 if hits[0] is fe:
@@ -1889,7 +1899,11 @@ def _apply(f, cand, ref_assigns=()):
         own = own_nodes(f)
         stores = [n for n in own if isinstance(n, ast.Name) and n.id == t and isinstance(n.ctx, (ast.Store, ast.Del))]
         nested = any(isinstance(x, ast.Name) and x.id == t for n in ast.walk(f) if n is not f and isinstance(n, SCOPES + COMPS) for x in ast.walk(n))
-        if len(stores) != 1 or nested or t in params_of(f) or b is not f.body:
+        if len(stores) != 1 or nested or t in params_of(f):
+            return False
+        # every read is in the rest of this block (so the binding reaches it on every path that gets there)
+        later = set(id(x) for s_ in b[i + 1:] for x in ast.walk(s_))
+        if any(isinstance(x, ast.Name) and x.id == t and isinstance(x.ctx, ast.Load) and id(x) not in later for x in own):
             return False
         # the aliased chain (and its prefixes) is not rebound in this function
         ch = ast.unparse(st.value)
